@@ -151,14 +151,17 @@ theorem lookup_hit_sound (lon lat : Float) (r : Int) (id : Nat) (k : Int)
 /-- T3b. The fallback (`k = −1`): the answer is the encoding of the FIRST MAXIMUM (`firstMax`: left fold
 keeping the earlier element on ties and on incomparable values) of the non-empty list of recorded
 misses; every recorded miss is the estimate of a probe sample whose containment value at the query point
-was computed and was not positive. -/
+was computed and was not positive, recorded with the negated perpendicular distance from the query point
+to its pentagon (`cellDistanceOutside`; repair of defect F16) - so the fallback returns the tried cell
+that is NEAREST to the point. -/
 theorem lookup_fallback (lon lat : Float) (r : Int) (id : Nat)
     (h : lonlatToCellB lon lat r = .ok ⟨id, -1⟩) :
     2 ≤ r ∧ r ≤ 29 ∧
     ∃ c0 rest, serialize (firstMax c0 rest).1 = .ok id ∧ firstMax c0 rest ∈ c0 :: rest ∧
       ∀ e ∈ c0 :: rest, e.1.res = r ∧
         (∃ smp ∈ probeSamples lon lat (r - 1), lonlatToEstimate smp.1 smp.2 r = .ok e.1) ∧
-        cellContainsPoint e.1 lon lat = .ok e.2 ∧ ¬ (e.2 > 0.0) := by
+        (∃ d, cellContainsPoint e.1 lon lat = .ok d ∧ ¬ (d > 0.0)) ∧
+        (∃ o, cellDistanceOutside e.1 lon lat = .ok o ∧ e.2 = -o) := by
   by_cases hrange : r < -1 ∨ 29 < r
   · rewrite [lonlatToCellB_outOfRange lon lat r hrange] at h; cases h
   have hpost := lonlatToCellB_post lon lat r (by omega) (by omega)
